@@ -98,7 +98,8 @@ def explore(chk, rng, n_hist, tag):
     try:
         all_ids = {}
         for h in range(n_hist):
-            identities = rng.sample(["hss.example", "mme.example", "a", "b;1;2", "pcrf.epc.mnc001.mcc001.3gppnetwork.org", "x" * 40, "é"],
+            identities = rng.sample(["hss.example", "mme.example", "a", "b;1;2", "pcrf.epc.mnc001.mcc001.3gppnetwork.org", "x" * 40, "é",
+                                     "MME01.EPC.Example.COM", "pgw-Gx.example.com", " padded.example "],
                                     rng.choice([1, 2, 3, 4]))
             ops, gen, model = run_history(rng, rng.choice([5, 20, 60, 200]), identities, clock)
             inp = {"op": "history", "n": len(ops), "identities": identities, "ops": ["%s:%s" % o for o in ops[:40]]}
